@@ -157,6 +157,7 @@ impl Property for C05 {
         let mut cfg = InstCfg::new(regime);
         cfg.kinds.extend([4, 5]); // semi-integer, semi-continuous: "all variable kinds"
         cfg.tolerance_candidates = true;
+        cfg.fixed_out_of_bound = true;
         cfg.func.allow_unset = true; // a present function message whose oneof is unset evaluates to zero (C01)
         // drawn before the instance so that short tapes still vary the class
         let class = t.weighted(&[5, 4, 3, 3, 6]);
